@@ -51,6 +51,15 @@ func Params(def int) (seed uint64, n int) {
 	return
 }
 
+func envInt(name string, def int) int {
+	if s := os.Getenv(name); s != "" {
+		if v, err := strconv.Atoi(s); err == nil {
+			return v
+		}
+	}
+	return def
+}
+
 // Out writes one JSON object per line to VERIF_OUT (or stdout).
 type Out struct {
 	f *os.File
